@@ -163,12 +163,9 @@ void SolveLSE(matrix *mx, dvector *solution)
 
   while(l > -1){
     double b = 0.f;
-    for(i = 0; i < (*X).col-1; i++){
-      if(i != l){
-        b += X->data[l][i] * solution->data[i];
-      }
-      else
-        continue;
+    /* back substitution: only the unknowns already solved (i > l) enter the sum */
+    for(i = l+1; i < (*X).col-1; i++){
+      b += X->data[l][i] * solution->data[i];
     }
 
     if(FLOAT_EQ(X->data[l][l], 0, 1e-4) == 1)
